@@ -235,12 +235,14 @@ impl BloomFilter {
 
     fn contains < T : Hash > ( & self , item : & T ) -> ( r : bool ) requires self . wf ( ) ensures
 /*@C09.contains*/ r <==> all_present ( self . bit_array @ , hash_pair ( self . seed , * item ) . 0 , hash_pair ( self . seed , * item ) . 1 , self . num_hashes as int ) {
-if self . is_empty ( ) {
 proof {
+if self . num_bits_set == 0 {
 let ( a , b ) = hash_pair ( self . seed , * item ) ;
 lemma_pos_range ( a , b , 1 , self . cap ( ) ) ;
 lemma_total_zero_empty ( self . bit_array @ , pos ( a , b , 1 , self . cap ( ) ) ) ;
 }
+}
+if self . is_empty ( ) {
 return false ;
 }
 let ( h0 , h1 ) = self . compute_hash ( item ) ;
@@ -279,10 +281,11 @@ assert ( positions ( h0 , h1 , self . num_hashes as int , self . cap ( ) ) . con
 /*@C18.bloom_size*/ final ( self ) . same_config ( old ( self ) ) ,
 /*@C09.reset_bits*/ final ( self ) @ == ISet :: < int > :: empty ( ) ,
 /*@C09.reset_count*/ final ( self ) . num_bits_set == total_pc ( final ( self ) . bit_array @ ) , final ( self ) . num_bits_set == 0 , {
-self . bit_array . fill ( 0 ) ;
 proof {
-let ws = self . bit_array @ ;
+assert forall | ws : Seq < u64 > | ( forall | k : int | 0 <= k < ws . len ( ) ==> ws [ k ] == 0 ) implies # [ trigger ] total_pc ( ws ) == 0 by {
 lemma_total_zero ( ws ) ;
+}
+assert forall | ws : Seq < u64 > | ( forall | k : int | 0 <= k < ws . len ( ) ==> ws [ k ] == 0 ) implies # [ trigger ] bits ( ws ) == ISet :: < int > :: empty ( ) by {
 assert forall | i : int | ! bits ( ws ) . contains ( i ) by {
 if 0 <= i < ws . len ( ) * 64 {
 let c = ( i % 64 ) as u64 ;
@@ -291,6 +294,8 @@ assert ( ( 0u64 >> c ) & 1 == 0 ) by ( bit_vector ) ;
 }
 assert ( bits ( ws ) =~= ISet :: < int > :: empty ( ) ) ;
 }
+}
+self . bit_array . fill ( 0 ) ;
 self . num_bits_set = 0 }
 
 
@@ -476,6 +481,7 @@ proof {
 let w = self . bit_array @ [ word_index as int ] ;
 let b = bit_offset as u64 ;
 assert ( b < 64 ==> ( ( w & ( 1u64 << b ) ) != 0 <==> ( ( w >> b ) & 1 == 1 ) ) ) by ( bit_vector ) ;
+assert ( w & ( 1u64 << b ) == ( 1u64 << b ) & w ) by ( bit_vector ) ;
 }
 ( self . bit_array [ word_index ] & mask ) != 0 }
 
@@ -492,28 +498,33 @@ proof {
 assert ( bit_index >> 6 == bit_index / 64 ) by ( bit_vector ) ;
 assert ( bit_index & 63 == bit_index % 64 ) by ( bit_vector ) ;
 }
-let mask = 1u64 << bit_offset ;
 let ghost ws0 = self . bit_array @ ;
-let ghost w0 = ws0 [ word_index as int ] ;
-let ghost b = bit_offset as u64 ;
-if ( self . bit_array [ word_index ] & mask ) == 0 {
+let ghost gw = ( bit_index / 64 ) as int ;
+let ghost w0 = ws0 [ gw ] ;
+let ghost b = ( bit_index % 64 ) as u64 ;
+let ghost gm = 1u64 << b ;
 proof {
+assert ( w0 & ( 1u64 << b ) == ( 1u64 << b ) & w0 && w0 | ( 1u64 << b ) == ( 1u64 << b ) | w0 ) by ( bit_vector ) ;
+if ( w0 & gm ) == 0 {
 axiom_pc_set_bit ( w0 , b ) ;
-lemma_total_update ( ws0 , word_index as int , w0 | mask ) ;
+lemma_total_update ( ws0 , gw , w0 | gm ) ;
 lemma_total_le ( ws0 ) ;
 }
+}
+let mask = 1u64 << bit_offset ;
+if ( self . bit_array [ word_index ] & mask ) == 0 {
 self . bit_array [ word_index ] |= mask ;
 self . num_bits_set += 1 ;
 }
 proof {
 let ws1 = self . bit_array @ ;
-if ( w0 & mask ) != 0 {
+if ( w0 & gm ) != 0 {
 assert ( b < 64 && ( w0 & ( 1u64 << b ) ) != 0 ==> ( w0 | ( 1u64 << b ) ) == w0 ) by ( bit_vector ) ;
 }
-assert ( ws1 =~= ws0 . update ( word_index as int , w0 | mask ) ) ;
+assert ( ws1 =~= ws0 . update ( gw , w0 | gm ) ) ;
 assert forall | i : int | bits ( ws1 ) . contains ( i ) <==> bits ( ws0 ) . insert ( bit_index as int ) . contains ( i ) by {
 if 0 <= i < ws0 . len ( ) * 64 {
-if i / 64 == word_index {
+if i / 64 == gw {
 let c = ( i % 64 ) as u64 ;
 assert ( b < 64 && c < 64 ==> ( ( ( ( w0 | ( 1u64 << b ) ) >> c ) & 1 == 1 ) <==> ( ( ( w0 >> c ) & 1 == 1 ) || c == b ) ) ) by ( bit_vector ) ;
 if c == b {
